@@ -435,13 +435,10 @@ SP_BASE = 2_000_000
 
 def respell(rng, t, p=0.3, top=True, qualified=False):
     """the same type, spelled through PEP 695 aliases (`type X = ...`), `Annotated[.., 'note']` and `Required[..]` /
-    `NotRequired[..]` qualifiers at random positions of any depth: [qualifier] → Annotated[..]* → [alias] → type; returns
-    the respelled node and the number of wrappers added.
-    Left out, because loader generation fails for them on the unchanged library (recorded, not known findings yet):
-      * an alias whose value is itself an alias or an Annotated[..], and Annotated[..] under a spelled TypedDict qualifier
-        (wrappers are unwrapped once, in a fixed order) — /tmp/ag/B/findings/v1-alias-of-alias.md
-      * a wrapper directly around a Union member or around the value type of a DefaultDict —
-        /tmp/ag/B/findings/v1-spelled-union-member-and-defaultdict-value.md"""
+    `NotRequired[..]` qualifiers at random positions of any depth, stacked in any order; returns the respelled node and the
+    number of wrappers added.
+    Left out (recorded finding, findings/v1-wrapped-union-member-and-defaultdict-value.py): a wrapper directly around a Union
+    member or around the value type of a DefaultDict."""
     T = model.T
     k = t['k']
     n = 0
@@ -472,11 +469,13 @@ def respell(rng, t, p=0.3, top=True, qualified=False):
         t['a'] = new
     if top or k == 'none':
         return t, n
-    if rng.random() < p:
-        t = T('alias', t, name=model.fresh('Al'))
-        n += 1
-    while not qualified and rng.random() < p:
-        t = T('annotated', t, note=rng.choice(['note', 'primary key', '']))
+    # wrappers in any order and to any depth (an alias of an alias, an alias of Annotated[..], Annotated[..] below a qualifier):
+    # stacked wrappers made loader generation fail until repair 41103de
+    while rng.random() < p:
+        if rng.random() < 0.5:
+            t = T('alias', t, name=model.fresh('Al'))
+        else:
+            t = T('annotated', t, note=rng.choice(['note', 'primary key', '']))
         n += 1
     return t, n
 
